@@ -1,4 +1,5 @@
 """C12 - resources are conserved: never negative, never leaked, claims never wait."""
+import copy
 from hypothesis import strategies as st
 
 from vlib.runner import Check, Outcome
@@ -57,6 +58,7 @@ def cases(draw, tier):
             steps.append({'op': 'sleep', 'd': draw(st.sampled_from([0, 0.5, 1, 2]))})
         for _ in range(draw(st.integers(1, 2))):
             b = block(cap, {'r': 'R'}, 0)
+            inner = b
             w = draw(st.integers(0, 9))
             if w == 0:
                 b = {'op': 'until', 'name': 'U%d_%d' % (i, len(steps)), 'children': [], 'body': [b],
@@ -66,6 +68,11 @@ def cases(draw, tier):
             steps.append(b)
             if draw(st.integers(0, 2)) == 0:
                 steps.append(sl())
+            if draw(st.integers(0, 4 if w > 1 else 1)) == 0:
+                # the same borrow object is entered a second time (after the first use ended - normally, or interrupted
+                # by the until() around it)
+                inner['obj'] = inner['as']
+                steps.append(copy.deepcopy(inner))
         return {'name': 'b%d' % i, 'steps': steps}
 
     kids = [borrower(i) for i in range(draw(st.integers(2, 5 if big else 4)))]
@@ -215,10 +222,10 @@ def judge(out, case, it, oc, exc, obs, ctx):
             break
         # nested shares
         for h, hl in hlevels.items():
-            owner = next((b for b in blocks.values() if b['node'].get('as') == h), None)
-            if owner is None or 'held' not in owner or owner['held'][0] > seq:
-                continue
-            if 'releasing' in owner and owner['releasing'][0] <= seq:
+            # (one handle name may belong to several uses of one borrow object: the use that holds it right now)
+            owner = next((b for b in blocks.values() if b['node'].get('as') == h and 'held' in b and b['held'][0] <= seq
+                          and not ('releasing' in b and b['releasing'][0] <= seq)), None)
+            if owner is None:
                 continue
             share = owner['amt']
             nin = [0] * len(fields)
@@ -307,6 +314,11 @@ class C12(Check):
             plan = [[{'k': k, 'target': t, 'token': [1]}] for t in case['targets'] for k in range(N + 1)][:1500]
         else:
             plan = [[dict(f, k=f['k'] % (N + 1))] for f in case['faults']]
+        if 'until' in str(case['prog']['roots'][0]):
+            # the flag that until(flag) blocks wait for fires at activation boundaries (the interrupted activity goes on,
+            # e.g. to use the same borrow object again)
+            ks = range(N + 1) if case['faults'] == 'all' else sorted({(f['k'] * 7 + 3) % (N + 1) for f in case['faults']})
+            plan += [[{'kind': 'flag', 'i': 0, 'k': k}] for k in ks][:400]
         for faults in plan:
             it, oc, exc, p, obs = self._run(case, faults)
             out.evals += 1
